@@ -95,13 +95,27 @@ def parse_blob(buf, pos, end=None):
         pos += size
 
 
+def mask_pjh(b):
+    """p_jh entries are scratch particles: only x..vz (0..48) and m (72..80) carry state; ax..az, r, last_collision, hash
+    are never written by the coordinate transformations (uninitialised realloc memory)."""
+    b = bytearray(b)
+    n = len(b) // PARTICLE_SIZE
+    for i in range(n):
+        o = i * PARTICLE_SIZE
+        b[o + 48:o + 72] = b'\0' * 24
+        b[o + 80:o + 128] = b'\0' * 48
+    return bytes(b)
+
+
 def canon(fields, drop_walltime=True):
     """Pointer-masked canonical form of a field dict."""
     c = {}
     for k, v in fields.items():
         if drop_walltime and k in WALLTIME_FIELDS:
             continue
-        if k in ('particles', 'ri_whfast.p_jh', 'ri_whfast512.pjh0'):
+        if k in ('ri_whfast.p_jh', 'ri_whfast512.pjh0'):
+            v = mask_pjh(v)
+        elif k in ('particles',):
             v = mask_particles(v)
         elif k == 'var_config':
             v = mask_varcfg(v)
@@ -178,6 +192,17 @@ def state_hash(sim):
     for i in range(sim.N):
         p = ps[i]
         h.update(struct.pack('<8dI', p.x, p.y, p.z, p.vx, p.vy, p.vz, p.m, p.r, p.hash.value))
+    return h.hexdigest()[:24]
+
+
+def state_hash_unordered(sim):
+    """like state_hash but insensitive to the order of the particle array (tree modules re-order particles)."""
+    h = hashlib.sha256()
+    h.update(struct.pack('<dd', sim.t, sim.dt))
+    ps = sim.particles
+    recs = sorted(struct.pack('<8dI', p.x, p.y, p.z, p.vx, p.vy, p.vz, p.m, p.r, p.hash.value) for p in (ps[i] for i in range(sim.N)))
+    for rec in recs:
+        h.update(rec)
     return h.hexdigest()[:24]
 
 
